@@ -54,10 +54,14 @@ def check_lammps(ctx, n):
   pots = [Potential("A", "B", ident), Potential("B", "B", lambda r: 2.0 * r)]
   for route in ("class", "legacy"):
     out = io.StringIO()
-    if route == "class":
-      LAMMPS_PairTabulation(pots, cutoff, n).write(out)
-    else:
-      ap.writePotentials("LAMMPS", pots, cutoff, n, out)
+    try:
+      if route == "class":
+        LAMMPS_PairTabulation(pots, cutoff, n).write(out)
+      else:
+        ap.writePotentials("LAMMPS", pots, cutoff, n, out)
+    except Exception as e:
+      ctx.violation("size_exception", "LAMMPS nr=%d (%s): %s: %s" % (n, route, type(e).__name__, e), what="size_exception", exc=type(e).__name__)
+      return False
     try:
       secs = readers.read_lammps_table(out.getvalue())
     except readers.FormatError as e:
